@@ -611,7 +611,6 @@ CLASSES["SXGlyphSet"].fields["name"] = Opt(STR)  # _GlyphSet.name (layer name or
 # include= nor exclude=, so it is `lambda g: True`; that call-site fact is what this model states.
 CLASSES["SXFilter"].methods["include"] = lambda ex, st, self, a, k, n: Val.const(True)
 
-_INJ = "all(all(implies(a != b, glyphSet[a] != glyphSet[b]) for b in glyphSet.keyset) for a in glyphSet.keyset)"
 _ALL_PRUNED = f"all(all(c.baseGlyph not in {_SKIP} for c in glyphSet[n].components) for n in glyphSet.keyset)"
 
 contract(
@@ -621,8 +620,6 @@ contract(
     params={"self": Ref("SXFilter"), "font": Ref("SXFont"), "glyphSet": Ref("SXGlyphSet")},
     returns=Set(STR),
     globals=_HELPERS,
-    # distinct names hold distinct glyph objects (true of every layer / _GlyphSet: one object per name)
-    requires=[_INJ],
     ensures={
         "context": "self.context.glyphSet == glyphSet",
         "keys": "glyphSet.keyset == old(glyphSet.keyset)",
@@ -678,7 +675,6 @@ contract(
     params={"self": Ref("SXFilter"), "font": Ref("SXFont"), "glyphSet": Ref("SXGlyphSet")},
     returns=Set(STR),
     globals={"super": _Ref("c13.super")},
-    requires=[_INJ],
     ensures={
         # skipped glyphs are gone from the glyph set ...
         "gone": f"all(n not in glyphSet.keyset for n in {_SKIP})",
@@ -889,36 +885,40 @@ _GSS = "self.context.glyphSets"
 _LEN_MATCH = f"implies(self.context.instantiator is not None, len(self.context.instantiator.interpolated_layers) == len({_GSS}))"
 _WELL_NAMED = f"all(all(gs[n].name == n for n in gs.keyset) for gs in {_GSS})"
 
-# -- SUMMARY (not verified deductively: `[None] * n` is outside the engine's subset; bounded check in the hook) --------------
-contract(
-    "ufo2ft.filters.base:BaseIFilter.getInterpolatedLayers",
-    name="SXIFilter",
-    props=[],
-    params={"self": Ref("SXIFilter")},
-    returns=List(Opt(Ref("SXGlyphSet"))),
-    requires=[_LEN_MATCH],
-    ensures={"one-per-master": f"len(result) == len({_GSS})"},
-    notes="SUMMARY of a 4-line accessor: instantiator.interpolated_layers, or [None] * len(glyphSets)",
-)
+def ifilter_summaries(cname, full_skip_set):
+    """SUMMARIES (props=[]: used at call sites, NOT verified deductively; bounded checks in the hooks) of the two BaseIFilter
+    helpers the interpolatable filters call, for a receiver class `cname`."""
+    # `[None] * n` is outside the engine's subset
+    contract(
+        "ufo2ft.filters.base:BaseIFilter.getInterpolatedLayers",
+        name=cname,
+        props=[],
+        params={"self": Ref(cname)},
+        returns=List(Opt(Ref("SXGlyphSet"))),
+        requires=[_LEN_MATCH],
+        ensures={"one-per-master": f"len(result) == len({_GSS})"},
+        notes="SUMMARY of a 4-line accessor: instantiator.interpolated_layers, or [None] * len(glyphSets)",
+    )
+    # frame summary + call-site obligation.  The skip-export filter must hand over its FULL skip set: the composite has to
+    # exist wherever ANY skipped base, at any depth, has a source, and locationsFromComponentGlyphs only follows bases that
+    # are in `include`.  The decompose filter passes nothing (include=None: every base is followed).
+    contract(
+        "ufo2ft.filters.base:BaseIFilter.ensureCompositeDefinedAtComponentLocations",
+        name=cname,
+        props=[],
+        params={"self": Ref(cname), "glyphName": STR, "include": Opt(Ref("SXNameSet"))},
+        requires=(["include is not None", f"all(n in include for n in {_SKIP})", f"all(n in {_SKIP} for n in include)"] if full_skip_set else ["include is None"]),
+        ensures={"grow-only-this-name": _GROW, "well-named": f"implies(old({_WELL_NAMED}), {_WELL_NAMED})"},
+        modifies=["SXGlyphSet.glyphs"],
+        notes="SUMMARY (frame): may add `glyphName` (an interpolated instance carrying that name) to glyph sets, nothing else",
+    )
 
-# -- SUMMARY + call-site obligation: the skip-export filter must hand over its FULL skip set ----------------------------------
-# (the composite has to exist wherever ANY skipped base, at any depth, has a source: locationsFromComponentGlyphs only follows
-# bases that are in `include`)
+
 _GROW = (
     f"all(all(n in gs.keyset and gs[n] == old(self.heap_glyphs)[gs][n] for n in old(self.heap_glyphs)[gs]) for gs in {_GSS})"
     f" and all(all(n == glyphName or n in old(self.heap_glyphs)[gs] for n in gs.keyset) for gs in {_GSS})"
 )
-contract(
-    "ufo2ft.filters.base:BaseIFilter.ensureCompositeDefinedAtComponentLocations",
-    name="SXIFilter",
-    props=[],
-    params={"self": Ref("SXIFilter"), "glyphName": STR, "include": Opt(Ref("SXNameSet"))},
-    # the set handed over has to contain the filter's whole skip set (and nothing else)
-    requires=["include is not None", f"all(n in include for n in {_SKIP})", f"all(n in {_SKIP} for n in include)"],
-    ensures={"grow-only-this-name": _GROW, "well-named": f"implies(old({_WELL_NAMED}), {_WELL_NAMED})"},
-    modifies=["SXGlyphSet.glyphs"],
-    notes="SUMMARY (frame): may add `glyphName` (an interpolated instance carrying that name) to glyph sets, nothing else",
-)
+ifilter_summaries("SXIFilter", True)
 
 _PRUNED_ALL = f"all(implies(glyphName in gs.keyset, all(c.baseGlyph not in {_SKIP} for c in gs[glyphName].components)) for gs in {_GSS})"
 
